@@ -120,7 +120,7 @@ func init() {
 		rep.Extra["builtin_only_paths"] = unmodelled
 		rep.Extra["advanced_only_paths"] = extraInAdv
 		rep.Extra["single_field_mutations"] = len(muts)
-		rep.Rule = fmt.Sprintf("bounded-exhaustive objects from a reflective generator over k8s.io/api/apps/v1.StatefulSet (depth %d): a populated base object with every reachable path set, one at a time, to each variant (leaf: two typical values and zero; pointer: nil / pointer to zero / populated; slice: nil / empty / 1 / 3 items; map: nil / empty / one entry), all pairs of mutations among the set-level fields (metadata.*, spec.*, status.* first level; thorough: second level too), and the same on an empty base object; slot sets = all subsets of {MinInt32,-1,0,1,2,MaxInt32}; annotation maps {nil, {}, other keys, pre-existing slots/pause}. Oracles: To(From(x)) semantically equals x with the built-in-only paths (computed by reflection) zeroed, apiVersion apps/v1, no error; list conversion keeps length and order; write/read through the hijack client on a fake keeps every value the input had; Set.Get = id, Add = union, empty removes the key, other annotations untouched, same for pause; edit histories through the hijack client (create with slots S1/pause P1, read, update to S2/P2 for all S1,S2 subsets of {0,1,2}: the update result, a fresh read and the stored Advanced object all say S2/P2 and an emptied slot set leaves no annotation); List through the client over an underlying list of 0..4, 63, 64, 65, 129 and 200 items (thorough: 1000) served in a fixed non-sorted order, the items differing in which fields they carry at all (length, order, list resourceVersion/continue, item types and content), UpdateStatus (every status field, slots untouched) and Patch (result equals the stored object); apply configurations built from ten builder steps (alone, in every ordered pair, all together) convert to a configuration that says the same, typed for the Advanced API; D(D(o)) = D(o) and re-submitting a read-back object leaves the template unchanged. Non-trivial = the mutated object differs from the base.", depth)
+		rep.Rule = fmt.Sprintf("bounded-exhaustive objects from a reflective generator over k8s.io/api/apps/v1.StatefulSet (depth %d): a populated base object with every reachable path set, one at a time, to each variant (leaf: two typical values and zero; pointer: nil / pointer to zero / populated; slice: nil / empty / 1 / 3 items; map: nil / empty / one entry), all pairs of mutations among the set-level fields (metadata.*, spec.*, status.* first level; thorough: second level too), and the same on an empty base object; slot sets = all subsets of {MinInt32,-1,0,1,2,MaxInt32}; annotation maps {nil, {}, other keys, pre-existing slots/pause}. Oracles: To(From(x)) semantically equals x with the built-in-only paths (computed by reflection) zeroed, apiVersion apps/v1, no error; list conversion keeps length and order; write/read through the hijack client on a fake keeps every value the input had; Set.Get = id, Add = union, empty removes the key, other annotations untouched, same for pause; edit histories through the hijack client (create with slots S1/pause P1, read, update to S2/P2 for all S1,S2 subsets of {0,1,2}: the update result, a fresh read and the stored Advanced object all say S2/P2 and an emptied slot set leaves no annotation); List through the client over an underlying list of 0..4, 63, 64, 65, 129 and 200 items (thorough: 1000) served in a fixed non-sorted order, the items differing in which fields they carry at all (length, order, list resourceVersion/continue, item types and content), UpdateStatus (every status field, slots untouched) and Patch (result equals the stored object); every member of VolumeSource alone in a template volume keeps being the volume's only source; apply configurations built from ten builder steps (alone, in every ordered pair, all together) convert to a configuration that says the same, typed for the Advanced API; D(D(o)) = D(o) and re-submitting a read-back object leaves the template unchanged. Non-trivial = the mutated object differs from the base.", depth)
 		rep.Assumptions = []string{"fields the Advanced API models = JSON paths present in both Go types (computed by reflection over struct tags)", "timestamps are generated at second granularity (the API's own)", "the hijack client is exercised on client-go's stock fake object tracker"}
 		ctx := context.TODO()
 		var n int64
@@ -559,6 +559,56 @@ func init() {
 					}
 				}
 				pc3.AppsV1().StatefulSets("default").Delete(ctx, x.Name, metav1.DeleteOptions{})
+			}
+		}
+		// unions: a volume names exactly one source. Every member of VolumeSource alone in a template volume, written
+		// through the hijack client (which defaults on the way in): defaulting may fill an empty union, it must not add a
+		// second member to one that has a member already
+		{
+			pcU := pcfake.NewSimpleClientset()
+			cli := helper.NewHijackClient(kubefake.NewSimpleClientset(), pcU).AppsV1().StatefulSets("default")
+			vt := reflect.TypeOf(v1.VolumeSource{})
+			members := func(vs v1.VolumeSource) []string {
+				var out []string
+				rv := reflect.ValueOf(vs)
+				for i := 0; i < rv.NumField(); i++ {
+					if rv.Field(i).Kind() == reflect.Ptr && !rv.Field(i).IsNil() {
+						out = append(out, vt.Field(i).Name)
+					}
+				}
+				return out
+			}
+			for i := -1; i < vt.NumField(); i++ {
+				n++
+				x := c19Base()
+				vol := v1.Volume{Name: "v"}
+				label := "template volume without a source"
+				if i >= 0 {
+					if vt.Field(i).Type.Kind() != reflect.Ptr {
+						continue
+					}
+					reflect.ValueOf(&vol.VolumeSource).Elem().Field(i).Set(reflect.New(vt.Field(i).Type.Elem()))
+					label = "template volume whose only source is " + vt.Field(i).Name
+				}
+				x.Spec.Template.Spec.Volumes = []v1.Volume{vol}
+				h := sha256.Sum256([]byte(label))
+				var k [16]byte
+				copy(k[:], h[:16])
+				rep.Count(k, true, "")
+				if _, err := cli.Create(ctx, x.DeepCopy(), metav1.CreateOptions{}); err != nil {
+					rep.Violation("C19", "hijack-create-error", label+": "+err.Error(), nil)
+					continue
+				}
+				got, err := cli.Get(ctx, x.Name, metav1.GetOptions{})
+				if err != nil || len(got.Spec.Template.Spec.Volumes) != 1 {
+					rep.Violation("C19", "hijack-get-error", fmt.Sprintf("%s: read back failed or volume list changed: %v", label, err), nil)
+				} else {
+					before, after := members(vol.VolumeSource), members(got.Spec.Template.Spec.Volumes[0].VolumeSource)
+					if len(before) >= 1 && fmt.Sprint(before) != fmt.Sprint(after) {
+						rep.Violation("C19", "hijack-write-read-lossy", fmt.Sprintf("%s: written with sources %v, read back with sources %v", label, before, after), nil)
+					}
+				}
+				pcU.AppsV1().StatefulSets("default").Delete(ctx, x.Name, metav1.DeleteOptions{})
 			}
 		}
 		// apply configurations (what the hijack client's Apply/ApplyStatus convert before sending): every builder step
